@@ -609,15 +609,20 @@ func r147(c *an.Ctx) {
 				return
 			}
 			n++
-			top := fn
-			for top.Parent() != nil {
-				top = top.Parent()
-			}
-			uses := false
-			for _, f2 := range an.WithClosures(top) {
-				for _, call := range an.CallsIn(f2, func(s string) bool { return strings.HasSuffix(s, ").onUpdate") }) {
-					_ = call
-					uses = true
+			// the function this code belongs to (a goroutine body or helper the rules have not seen belongs to its callers)
+			owners := an.Owners(fn)
+			top := owners[0]
+			uses := true
+			for _, o := range owners {
+				usesHere := false
+				for _, f2 := range an.WithClosures(o) {
+					for _, call := range an.CallsIn(f2, func(s string) bool { return strings.HasSuffix(s, ").onUpdate") }) {
+						_ = call
+						usesHere = true
+					}
+				}
+				if !usesHere {
+					uses, top = false, o
 				}
 			}
 			c.Check(uses, rule, an.FuncName(top)+"|a seed change is built from onUpdate's snapshot", st.Pos(), "", "a change marked SeedValue is constructed in a function that does not obtain the current state from onUpdate (which reads it only when updates-only is off, atomically with subscribing): the seed is sent regardless of updates_only, and is not ordered with the subscription")
